@@ -132,3 +132,50 @@ Qed.
 Lemma guarded_acts_only_in_permitted_lemma : forall gd g k,
   gd = GuardCheck \/ gd = GuardParam -> acts gd g (Some k) = true -> ns_check g k = true.
 Proof. intros gd g k [H|H] A; subst gd; exact A. Qed.
+
+(** ---- the privilege write path (add_user / update_user) ---- *)
+Lemma urec_group_store_enabled : forall wa w ba b,
+  urec_group (store_group (mkPg true wa w ba b)) = mkPg true wa (Some (olist w)) ba (Some (olist b)).
+Proof. intros wa w ba b. destruct wa, ba; reflexivity. Qed.
+
+Lemma update_sets_exactly_lemma : forall u p,
+  let g := urec_group u in
+  urec_group (update_user_priv u (Some p)) =
+  mkPg true (obool (p_wl_all p) (wl_all g))
+       (Some (match p_wl p with Some l => l | None => olist (wl g) end))
+       (obool (p_bl_all p) (bl_all g))
+       (Some (match p_bl p with Some l => l | None => olist (bl g) end)).
+Proof.
+  intros u p g. unfold update_user_priv. fold g. rewrite urec_group_store_enabled.
+  destruct (p_wl p), (p_bl p); reflexivity.
+Qed.
+
+Lemma update_none_keeps_lemma : forall u, update_user_priv u None = u.
+Proof. reflexivity. Qed.
+
+Lemma add_sets_exactly_lemma : forall p,
+  urec_group (add_user_priv (Some p)) =
+  mkPg true (obool (p_wl_all p) true) (Some (olist (p_wl p))) (obool (p_bl_all p) false) (Some (olist (p_bl p)))
+  /\ urec_group (add_user_priv None) = mkPg true true (Some []) false (Some []).
+Proof. intro p. split; [apply urec_group_store_enabled | reflexivity]. Qed.
+
+(** revoking: after an update that gives the whitelist [l] (the empty list included) and
+    switches "all" off, exactly the namespaces of [l] that are not blacklisted remain *)
+Lemma update_revokes_lemma : forall u p l k,
+  p_wl p = Some l -> p_wl_all p = Some false -> ~ In k l ->
+  check_permission (urec_group (update_user_priv u (Some p))) k = false.
+Proof.
+  intros u p l k Hl Ha Hk. rewrite update_sets_exactly_lemma. rewrite Hl, Ha. cbn [obool].
+  destruct (check_permission _ k) eqn:E; [|reflexivity].
+  apply check_sound_complete_lemma in E. destruct E as [[W|[l' [W1 W2]]] _]; cbn in *.
+  - discriminate.
+  - inversion W1; subst. contradiction.
+Qed.
+
+Lemma update_blacklists_lemma : forall u p l k,
+  p_bl p = Some l -> In k l ->
+  check_permission (urec_group (update_user_priv u (Some p))) k = false.
+Proof.
+  intros u p l k Hl Hk. rewrite update_sets_exactly_lemma. rewrite Hl.
+  apply blacklist_wins_lemma. right. exists l. split; [reflexivity|exact Hk].
+Qed.
